@@ -130,6 +130,7 @@ func (x *Exec) libCall(key string, fn *types.Func, call *ast.CallExpr, recvExpr 
 		n := x.W.Fresh("trimN", SInt)
 		r := x.W.MkSeq(strSort, x.W.SeqBase(s), Arith("+", x.W.SeqOff(s), a), n)
 		r.GoT = types.Typ[types.String]
+		r = x.sliceFacts(r, s, a)
 		x.W.DeclareFun("isTrimByte", []Sort{SInt}, SBool)
 		x.W.nfresh++
 		q := fmt.Sprintf("q!%d", x.W.nfresh)
@@ -143,6 +144,7 @@ func (x *Exec) libCall(key string, fn *types.Func, call *ast.CallExpr, recvExpr 
 			T("(forall (("+q+" Int)) "+Implies(outside, T("(isTrimByte "+x.W.SeqAt(s, qi).S+")", SBool)).S+")", SBool),
 			Implies(Cmp(">", n, IntLit(0)), And(Not(isAsciiSp(x.W.SeqAt(r, IntLit(0)))), Not(isAsciiSp(x.W.SeqAt(r, Arith("-", n, IntLit(1)))))))))
 		x.W.Facts = append(x.W.Facts, "(forall ((b Int)) (=> (or (= b 9) (= b 10) (= b 11) (= b 12) (= b 13) (= b 32)) (isTrimByte b)))")
+		x.W.Facts = append(x.W.Facts, "(forall ((b Int)) (! (=> (isTrimByte b) (or (<= b 32) (>= b 128))) :pattern ((isTrimByte b))))")
 		if sf := x.P.Contracts.Specs["validUTF8"]; sf != nil && len(sf.Params) == 2 {
 			// TrimSpace removes whole characters: for valid UTF-8 input the result starts and ends on character boundaries
 			name := x.defineSpec(sf)
